@@ -1151,6 +1151,15 @@ def html_template_execute(I, args, ins):
     if dt is not None and I.prog.kind(dt) == 'ptr':
         dt = I.prog.elem(dt)
     text = _template_text(I, tmpl)
+    if isinstance(text, str) and dt is not None and I.prog.kind(dt) == 'struct':
+        # every value the template text pulls out of the data must be one of those plain string fields: a method
+        # (or a field of another type) can hand the escaper a value typed as already-safe content
+        import re as _re3
+        plain = set(f['n'] for f in I.prog.fields(dt) if f['t'] == 'string')
+        for act in _re3.findall(r'\{\{(.*?)\}\}', text, _re3.S):
+            for nm in _re3.findall(r'\.(\w+)', act):
+                if nm not in plain:
+                    fields_ok = False
     ctx.ghost.setdefault('templates', []).append({'kind': 'html', 'data': dv, 'dtype': dt, 'plain_string_fields': fields_ok})
     body = _tag_bytes(I, ('html-escaped', dt, dv, text, fields_ok), 'html')
     r = I.invoke(ctx.force(w), 'Write', [body], ins)
